@@ -29,6 +29,12 @@ class SchedError(Exception):
     pass
 
 
+class SchedAbort(BaseException):
+    """Raised inside the scheduled threads (from the trace function) when the run exceeded its step
+    cap: every thread unwinds, so that no thread is left spinning.  BaseException, so that the code
+    under test cannot swallow it with `except Exception`."""
+
+
 _ACTIVE = [None]      # the scheduler currently running (one at a time per process)
 
 
@@ -71,6 +77,9 @@ class Sched:
         self.on_switch = None               # callback(frm, to) -> None, harness-side accounting
         self.steps_per_thread = [0] * n
         self.hold = 0
+        self.abort = False
+        self._abort_lock = threading.Lock()
+        self._left = n
         mode = plan['mode']
         self.mode = mode
         if mode == 'explicit':
@@ -154,12 +163,17 @@ class Sched:
         if self.hold:
             return
         self.step += 1
+        if self.abort:
+            raise SchedAbort()
+        if self.step > self.max_steps:
+            # runaway run: wake everybody up and unwind every thread
+            self.capped = True
+            self.abort = True
+            for sem in self.sems:
+                sem.release()
+            raise SchedAbort()
         nxt = self._next
         if nxt < 0 or self.step < nxt:
-            return
-        if self.step > self.max_steps:
-            self.capped = True
-            self._next = -1
             return
         to = self._decide(tid)
         if to is None:
@@ -174,6 +188,8 @@ class Sched:
         self.cur = to
         self.sems[to].release()
         self.sems[tid].acquire()
+        if self.abort:
+            raise SchedAbort()
 
     def _make_tracer(self, tid):
         point = self._point
@@ -206,12 +222,24 @@ class Sched:
         tracer = self._make_tracer(tid)
         sys.settrace(tracer)
         try:
-            fn()
+            if not self.abort:
+                fn()
+        except SchedAbort:
+            pass
         except BaseException as e:   # noqa
             self.errors[tid] = e
         finally:
             sys.settrace(None)
             self.state[tid] = 'done'
+            if self.abort:
+                # no baton any more: the last thread to unwind reports completion
+                with self._abort_lock:
+                    self._left -= 1
+                    last = self._left == 0
+                if last:
+                    self.done_sem.release()
+                return
+            self._left -= 1
             self.step += 1
             to = self._decide_finish(tid)
             if to is None:
